@@ -1,6 +1,31 @@
 -------------------------------- MODULE SemR --------------------------------
-EXTENDS Naturals, Integers, Sequences, BigZ, Dbl
-FunsR == {}
-PostR(f, A, O, r, x) == FALSE
-SigR(f, A) == FALSE
+(***************************************************************************)
+(* L2: random number functions (C19).  A generator state is opaque; what   *)
+(* the property fixes is (a) the RANGE of every draw and (b)               *)
+(* REPRODUCIBILITY: the outputs are a function of (algorithm and its       *)
+(* parameters, seed, sequence of calls so far).  (b) is specified with a   *)
+(* ghost in MPIR.tla: every state carries the KEY of its history, every    *)
+(* draw is entered in `memo`, and a draw whose key is already in memo must *)
+(* return the recorded output (twin states, gmp_randinit_set copies).      *)
+(* Exact streams are NOT prescribed.                                       *)
+(***************************************************************************)
+EXTENDS Naturals, Integers, Sequences, BigZ
+
+FunsR == {"gmp_randinit_default", "gmp_randinit_mt", "gmp_randinit_lc_2exp", "gmp_randinit_lc_2exp_size", "gmp_randinit_set",
+          "gmp_randclear", "gmp_randseed", "gmp_randseed_ui", "gmp_urandomb_ui", "gmp_urandomm_ui",
+          "mpz_urandomb", "mpz_urandomm", "mpz_rrandomb", "mpf_urandomb"}
+LOCAL I(h) == ZToInt(h)
+LOCAL Bool(r, c) == (r # 0) = c
+
+PostR(f, A, O, r, x) ==
+   CASE f \in {"gmp_randinit_default", "gmp_randinit_mt", "gmp_randinit_lc_2exp", "gmp_randinit_set", "gmp_randclear",
+               "gmp_randseed", "gmp_randseed_ui"} -> TRUE
+     [] f = "gmp_randinit_lc_2exp_size" -> Bool(r, I(A[2]) <= 128)
+     [] f = "gmp_urandomb_ui" -> ZLt(r, ZPow2(IF I(A[2]) > 64 THEN 64 ELSE I(A[2])))
+     [] f = "gmp_urandomm_ui" -> ZLt(r, A[2])                                  \* n >= 1
+     [] f \in {"mpz_urandomb", "mpz_rrandomb"} -> ~ZIsNeg(O[1].v) /\ ZLt(O[1].v, ZPow2(I(A[3])))
+     [] f = "mpz_urandomm" -> ~ZIsNeg(O[1].v) /\ ZLt(O[1].v, A[3])             \* n >= 1
+     [] f = "mpf_urandomb" ->      \* 0 <= value < 1  <=>  v >= 0 and exponent (in limbs) <= 0 ... value = v * 2^(64*(exp-|sz|))
+           /\ O[1].sz >= 0 /\ O[1].exp <= 0
+SigR(f, A) == f = "mpz_urandomm" /\ A[3] = "0"
 =============================================================================
